@@ -286,8 +286,15 @@ def random_aa(rng, count):
                     g2, r2 = step(x)
                 ops.append(f'acomp {vec2p(g2)} {vec2p(r2)}')
                 g, r, x = g2, r2, g2
-            elif k < 0.9:
+            elif k < 0.87:
                 ops.append('areset')
+            elif k < 0.93:
+                # re-initialisation of a used accelerator (no resize): a new run must start from the fresh g_0 / r_0
+                # whatever the ring position of the previous run was
+                g, r = step(x)
+                ops.append(f'ainit {vec2p(g)} {vec2p(r)}')
+                x = g
+                STATS['gen_aa_reinit'] = STATS.get('gen_aa_reinit', 0) + 1
             else:
                 ops.append('ascale ' + f2h(rng.choice([0.5, 2.0, 1.25, 0.75])))
     return ops
